@@ -6,6 +6,12 @@ of the code, Printed/RoundTripOK = the textual form, the coordinator).  MC: MC_C
 keeps the running configuration).  Gen: every configuration within the bounds (valid ones and
 valid ones with one catalogue defect) and coordinator reload sequences are printed by TLC and
 replayed on the real config.Load / Config.String() / dispatch.NewRoute / config.Coordinator.
+Bodies (SpecBody of MC_Config, Gen_Config_body / Sim_Config_body): time interval bodies built by
+TLC from the boundary shapes of every field that has a parser and a marshaller of its own (tokens
+-> text -> real loader -> values compared with the specification's, Config.String() compared with
+the specification's marshaller, round trip judged on the real code), and every secret-bearing
+field of spec/mc/Sites_Config.tla in every value shape (plain, templated, from a file, empty)
+with canaries, replayed by the same TestReplay.
 Secrets: every secret-bearing field found by reflection, canaries, Config.String() and the real
 GET /api/v2/status handler.  Robustness: structural corruptions of valid documents only
 (arbitrary byte strings are outside what a TLA+ model can enumerate; said in the evidence).
@@ -26,6 +32,7 @@ CLASS_KEY = {
     "rt_empty_group_by": "C17-RT-EMPTY-GROUPBY",
     "rt_empty_regexp": "C17-RT-EMPTY-REGEXP",
     "rt_empty_interval_field": "C17-RT-EMPTY-INTERVAL-FIELD",
+    "rt_empty_secret_pointer": "C17-RT-EMPTY-SECRET-POINTER",
 }
 TEXT = {
     "C17-PANIC-NULL-ROUTE": "config.Load panics on a YAML null element in a `routes:` list",
@@ -34,8 +41,11 @@ TEXT = {
     "C17-RT-EMPTY-GROUPBY": "an explicit `group_by: []` is dropped from the textual form; it loads back to a tree that groups differently",
     "C17-RT-EMPTY-REGEXP": "an empty regular expression in match_re is printed as null; the textual form does not load",
     "C17-RT-EMPTY-INTERVAL-FIELD": "an explicit empty time interval field is dropped from the textual form; the reloaded interval matches every instant",
+    "C17-RT-EMPTY-SECRET-POINTER": "a rocketchat token / token_id given as the empty string counts as configured, is printed as null, and the textual form does not load",
 }
-DEFECTS = 16        # size of the defect catalogue of MC_Config.tla
+DEFECTS = 22        # size of the defect catalogue of MC_Config.tla (16 of the routing part, 6 of time interval bodies)
+BODY_SHAPES = ["end_of_day", "start_of_day", "negative_day", "month_by_name", "month_by_number", "weekdays", "years",
+               "location:UTC", "location:Local", "location:Europe/Paris"]
 
 
 def _env():
@@ -45,8 +55,10 @@ def _env():
     return e
 
 
-def _run(binp, test, args, out, what):
-    rc, txt = vlib.go_run_test(binp, test + "$", args + ["-out", out], env_extra=_env())
+def _run(binp, test, args, out, what, env=None):
+    e = _env()
+    e.update(env or {})
+    rc, txt = vlib.go_run_test(binp, test + "$", args + ["-out", out], env_extra=e)
     if rc != 0:
         if "stack overflow" in txt or "goroutine stack exceeds" in txt:
             return None, txt
@@ -54,11 +66,11 @@ def _run(binp, test, args, out, what):
     return vlib.load_result(out), txt
 
 
-def _gen_sim(name, cfg, out_path, num, seed):
+def _gen_sim(name, cfg, out_path, num, seed, workers=8):
     """TLC -simulate seeded by VERIF_SEED; payload lines de-duplicated into out_path."""
     import hashlib
     raw = out_path + ".raw"
-    r = vlib.tlc(PID, name, "Gen_Config", cfg, workers=8, timeout=600, simulate="num=%d" % num, depth=20,
+    r = vlib.tlc(PID, name, "Gen_Config", cfg, workers=workers, timeout=600, simulate="num=%d" % num, depth=20,
                  extra=["-seed", str(seed)], marker="@@H ", payload_to=raw)
     if r.violated or (r.error and not r.timed_out) or (r.rc != 0 and not r.timed_out):
         raise vlib.Inconclusive("Gen %s: TLC failed: %s %s (see %s)" % (name, r.violated, r.error, r.stdout_path))
@@ -147,9 +159,16 @@ def run(tier, v):
         raise vlib.Inconclusive("MC_Config: actions never taken: %s" % dead)
     mcc = vlib.tlc(PID, "mc_coord", "MC_Config", "MC_Config_coord.cfg", workers=4, timeout=240, coverage=True)
     vlib.tlc_must_pass(mcc, "MC_Config_coord")
+    mcb = vlib.tlc(PID, "mc_body", "MC_Config", "MC_Config_body_thorough.cfg" if thorough else "MC_Config_body.cfg",
+                   workers=8, timeout=900 if thorough else 240, coverage=True)
+    vlib.tlc_must_pass(mcb, "MC_Config_body")
+    dead = [a for a, (d, g) in mcb.coverage.items() if g == 0]
+    if dead:
+        raise vlib.Inconclusive("MC_Config_body: actions never taken: %s" % dead)
     log("  [%.0fs]" % (time.time() - t0))
-    log("  MC_Config: %d configurations (%d generated), %.1fs; coordinator: %d states (%d generated)" %
-        (mc.distinct, mc.generated, mc.wall, mcc.distinct, mcc.generated))
+    log("  MC_Config: %d configurations (%d generated), %.1fs; coordinator: %d states (%d generated); "
+        "interval bodies and secrets: %d documents (%d generated), %.1fs" %
+        (mc.distinct, mc.generated, mc.wall, mcc.distinct, mcc.generated, mcb.distinct, mcb.generated, mcb.wall))
 
     binp = vlib.go_build_test(PID, "c17")
 
@@ -179,6 +198,36 @@ def run(tier, v):
         r, _ = _run(binp, "TestReplay", ["-in", path], os.path.join(wd, "replay_%s.json" % name), "replay")
         reps.append(r)
         J.take("load(%s)" % name, r)
+    # 3b. time interval bodies and secret-bearing fields printed by TLC (SpecBody), same replay
+    gen3 = os.path.join(wd, "gen_body.jsonl")
+    g3 = vlib.gen_behaviours(PID, "gen_body", "Gen_Config", "Gen_Config_body_thorough.cfg" if thorough else "Gen_Config_body.cfg",
+                             gen3, workers=8, timeout=900)
+    gen4 = os.path.join(wd, "gen_body_sim.jsonl")
+    g4 = _gen_sim("gen_body_sim", "Sim_Config_body.cfg", gen4, 600 if thorough else 60, seed, workers=4)
+    if g3.behaviours < 3000 or g4.behaviours < 300:
+        raise vlib.Inconclusive("Gen produced too few interval bodies / secret documents (%d, %d)" % (g3.behaviours, g4.behaviours))
+    breps = []
+    for name, path, env in (("body", gen3, {"C17_ALL_SITES": "1"}), ("body_sim", gen4, None)):
+        r, _ = _run(binp, "TestReplay", ["-in", path], os.path.join(wd, "replay_%s.json" % name), "replay", env=env)
+        breps.append(r)
+        reps.append(r)
+        J.take("load(%s)" % name, r)
+    bc = breps[0]["counters"]
+    if bc.get("sites_unknown_to_spec", 0) or bc.get("sites_plain_never_accepted", 0):
+        raise vlib.Inconclusive("secret-bearing fields the specification (spec/mc/Sites_Config.tla) or the harness must learn: %s" %
+                                [n for n in breps[0].get("notes", []) if n.startswith("UNCOVERED")][:10])
+    missing = [sh for sh in BODY_SHAPES if not bc.get("shape:" + sh, 0)]
+    stypes = sorted({k.split(":")[1] for k in bc if k.startswith("sec_ok:")})
+    missing += ["%s:%s" % (t, sh) for t in stypes for sh in ("plain", "templated") if not bc.get("sec_ok:%s:%s" % (t, sh), 0)]
+    if (missing or len(stypes) < 4 or bc.get("bodies_printed_conform", 0) < 1000 or bc.get("secrets_masked", 0) < 300
+            or bc.get("url_sites", 0) < 9 or bc.get("url_sites_templated_accepted", 0) < bc.get("url_sites", 0)):
+        raise vlib.Inconclusive("replay of interval bodies / secrets is vacuous: missing %s, counters %s" % (missing, {k: v for k, v in bc.items() if not k.startswith("defect:")}))
+    log("  [%.0fs]" % (time.time() - t0))
+    bsum = lambda key: sum(r["counters"].get(key, 0) for r in breps)
+    log("  Bodies: %d documents (%d enumerated, %d simulated): %d interval bodies load to the specification's values and print as its marshaller, "
+        "%d end at 24:00; %d secret fields (%d URL-typed, all accept a templated value) x shapes: %d masked, %d omitted/from file, 0 canaries printed" %
+        (sum(r["cases"] for r in breps), g3.behaviours, g4.behaviours, bsum("bodies_printed_conform"), bsum("shape:end_of_day"),
+         bc.get("spec_sites", 0), bc.get("url_sites", 0), bsum("secrets_masked") + bsum("secrets_masked_elsewhere"), bsum("secrets_omitted")))
     accepted = sum(r["counters"].get("accepted", 0) for r in reps)
     rejected = sum(r["counters"].get("defects_rejected", 0) for r in reps)
     kinds = {k for r in reps for k in r["counters"] if k.startswith("defect:") and k != "defect:none"}
@@ -250,12 +299,22 @@ def run(tier, v):
     if sec["samples"]:
         sample.append({"secrets_document": sec["samples"][0].get("yaml", "")[:600], "canaries": sec["samples"][0].get("secrets")})
     coverage = {
-        "states": mc.distinct + mcc.distinct, "transitions": mc.generated + mcc.generated,
+        "states": mc.distinct + mcc.distinct + mcb.distinct, "transitions": mc.generated + mcc.generated + mcb.generated,
         "traces_validated_against_impl": sum(r["cases"] for r in reps) + sum(r["cases"] for r in coords),
         "configurations_loaded": sum(r["cases"] for r in reps),
         "accepted_and_inspected": accepted, "round_trips_equivalent": rts, "defective_rejected": rejected,
         "defect_kinds": sorted(k[len("defect:"):] for k in kinds),
         "repeated_wildcard_group_by_accepted": sum(r["counters"].get("repeated_wildcard_accepted", 0) for r in reps),
+        "interval_body_documents": sum(r["cases"] for r in breps),
+        "interval_bodies_conform_values_and_print": bsum("bodies_printed_conform"),
+        "interval_shapes_loaded": {k[len("shape:"):]: bsum(k) for k in sorted(bc) if k.startswith("shape:")},
+        "spec_secret_sites": bc.get("spec_sites", 0), "spec_secret_sites_unreachable": bc.get("sites_unreachable", 0),
+        "spec_secret_url_sites_templated": bc.get("url_sites_templated_accepted", 0),
+        "secret_type_x_shape_accepted": {k[len("sec_ok:"):]: bsum(k) for k in sorted(bc) if k.startswith("sec_ok:")},
+        "secret_type_x_shape_not_acceptable": {k[len("sec_na:"):]: bc[k] for k in sorted(bc) if k.startswith("sec_na:")},
+        "secret_values_checked": {sh: bsum("secrets_checked:" + sh) for sh in ("plain", "templated", "file", "empty")},
+        "secrets_masked": bsum("secrets_masked"), "secrets_masked_in_another_field": bsum("secrets_masked_elsewhere"),
+        "secrets_omitted": bsum("secrets_omitted"),
         "secret_fields_found": sc.get("secret_paths", 0), "secret_fields_populated": sc.get("covered_paths", 0),
         "secret_fields_unreachable": [n for n in sec.get("notes", []) if n.startswith("secret path that no accepted")],
         "secret_documents": sec["cases"], "receiver_kinds": sc.get("receiver_kinds", 0),
@@ -270,13 +329,18 @@ def run(tier, v):
         "rule": "evaluations = documents given to the real config.Load (TLC-generated, corrupted, fixtures) + canary checks + coordinator steps; "
                 "non-trivial = accepted TLC configurations (every clause inspected on the loaded struct and on the dispatch tree, round trip compared) "
                 "+ coordinator behaviours with a rejected reload over a running configuration + defect kinds seen rejected",
-        "mc_action_coverage": {a: g for a, (d, g) in mc.coverage.items()},
+        "mc_action_coverage": dict({a: g for a, (d, g) in mc.coverage.items()}, **{a: g for a, (d, g) in mcb.coverage.items()}),
         "samples": sample,
         "exhaustive": True,
         "bounds": "MC/Gen: all configurations reachable from the minimal valid one by <= %d edits (3 receiver names, 2 interval names, 2 group_by labels, <= %d route nodes, depth <= 2) "
-                  "each also with one of %d catalogue defects; Sim: random walks of <= 12 edits, <= 6 nodes, depth 3; coordinator: pool of 7 files (3 valid, 4 defective), all sequences of 4 "
+                  "each also with one of %d catalogue defects; Sim: random walks of <= 12 edits, <= 6 nodes, depth 3; "
+                  "bodies (SpecBody): one interval in time_intervals and one in mute_time_intervals sharing a body of <= %d tokens out of 15 time ranges over "
+                  "{00:00,00:01,09:00,17:30,23:59,24:00}, 8 weekday shapes (single/range, sunday and saturday ends), 11 days_of_month shapes (1, 15, 31, -1, -31, ranges "
+                  "with negative ends), 12 month shapes (name/number, single/range, december, the unchecked 13), 3 year shapes, 5 locations (UTC, Local, 3 named zones), "
+                  "<= 3 elements, then one of 19 ill-formed tokens (6 more defect kinds); Sim: bodies of <= 8 tokens; secrets: each of the %d sites of Sites_Config.tla "
+                  "x {plain, templated, file, empty}, 1 per document (Sim: <= 3); coordinator: pool of 7 files (3 valid, 4 defective), all sequences of 4 "
                   "operations + random of 14; secrets: every secret-typed field reachable from config.Config through yaml tags; robustness: %d corruption kinds of %d seed documents" %
-                  (4 if thorough else 3, 4 if thorough else 3, DEFECTS, rob["counters"].get("corruption_kinds", 0), 5),
+                  (4 if thorough else 3, 4 if thorough else 3, 16, 3 if thorough else 2, bc.get("spec_sites", 0), rob["counters"].get("corruption_kinds", 0), 5),
         "not_decided": "'never panics or hangs' for ARBITRARY byte strings: a TLA+ model cannot enumerate YAML byte strings meaningfully; only structural corruptions of valid documents "
                        "(dropped/duplicated/re-indented lines, wrong scalar types, unknown fields, null list elements, truncation at every line, tabs, CRLF/BOM/NUL/invalid UTF-8, "
                        "anchors/aliases/merge keys incl. a modest alias bomb, deep and wide nesting, megabyte scalars) are generated. app/reloader.go (fallible work before touching live state) "
@@ -285,6 +349,16 @@ def run(tier, v):
     assumptions = [
         "a repeated wildcard `group_by: ['...', '...']` is read as the wildcard, not as a duplicate label (the loader accepts it; counted in coverage)",
         "the round-trip clause is applied to configurations whose textual form contains no <secret> (the statement's scope)",
+        "which fields are secret is fixed by spec/mc/Sites_Config.tla (generated once from config.Config by reflection: every field whose type name contains 'Secret' - "
+        "commoncfg.Secret by value and by pointer, SecretURL, SecretTemplateURL); a secret-typed field of the tree that the list lacks makes the run Inconclusive, "
+        "a listed field that is no longer secret-typed is still given canaries",
+        "a secret value's 'distinguishing part' is a canary token placed in host, path and query of URL-typed secrets (plain and next to a `{{ ... }}` action) and in the text of "
+        "string secrets; a canary anywhere in Config.String() or in the body of GET /api/v2/status (compared case-insensitively) is a leak",
+        "whether the loader accepts a given shape at a given secret field is not claimed by the specification (the harness searches the base documents of the field's holder for an "
+        "acceptable one; combinations never accepted are listed in the replay notes); what the textual form shows in place of the secret (<secret> / nothing) is compared as drift only",
+        "time interval tokens are rendered through yaml.Marshal (quoted where YAML needs it); unquoted scalars (`years: [2024]`, sexagesimal `9:00`) are not generated; "
+        "equivalence of reloaded intervals additionally probes the edges of days, months and years as wall-clock readings in UTC, the process's zone and every zone named",
+        "the specification's zone universe (UTC, Local, Europe/Paris, Asia/Kolkata, America/St_Johns) abstracts the tz database (embedded time/tzdata in the harness)",
         "equivalence of routing trees = equality of the dispatch.NewRoute trees (matchers, receiver, effective group_by / wildcard, timers, continue, mute/active names, labels); "
         "of inhibit rules = equality of inhibit.NewInhibitRule matchers/equal; of time intervals = structural equality or no distinguishing instant among ~1400 probes",
         "a hang is a call that does not return within 30 s of real time",
